@@ -34,6 +34,7 @@ type specEnv struct {
 	pkgPath     string
 	entryParams bool // bare parameter names denote entry values (ensures clauses)
 	isCallee    bool
+	preTop      Term
 }
 
 func (e *specEnv) child() *specEnv {
@@ -590,6 +591,25 @@ func (fx *FuncCtx) specCall(env *specEnv, x *ast.CallExpr) sval {
 		return sval{app(SInt, "div", argT(0), argT(1)), nil}
 	case "mod":
 		return sval{app(SInt, "mod", argT(0), argT(1)), nil}
+	case "seen":
+		// key already visited by the innermost enclosing range-over-map loop
+		if env.loop == nil || env.loop.seenName == "" {
+			fx.unsupportedf("spec: seen() outside a range-over-map loop")
+		}
+		k := argT(0)
+		return sval{Select(env.cur.heap[env.loop.seenName], k, SBool), nil}
+	case "fresh":
+		// the object was allocated during this call
+		a := arg(0)
+		t, ok := unwrapScalar(a.v)
+		if !ok {
+			fx.unsupportedf("spec: fresh() of non-reference")
+		}
+		top := env.preTop
+		if top.S == "" {
+			top = Term{"alloc0", SInt}
+		}
+		return sval{Ge(t, top), nil}
 	case "written":
 		return sval{env.cur.written, nil}
 	}
